@@ -87,7 +87,26 @@ TABLE = [
 
 def extra_tables():
     """hook for later additions that need custom patterns (policy struct defaults etc.)"""
-    return datacap_precision()
+    return datacap_precision() + miner_extension_switches()
+
+def miner_extension_switches():
+    """C10: does validate_extension_declarations reject (a) a claim id declared twice in a message
+    (fix of finding F2) and (b) a sector listed in more than one declaration (fix of F2b)?
+    The model carries both checks behind these switches, so it follows the source either way."""
+    text = src("actors/miner/src/lib.rs")
+    m = re.search(r"fn validate_extension_declarations\(.*?\n}\n", text, re.S)
+    if not m:
+        raise KeyError("fn validate_extension_declarations")
+    body = m.group(0)
+    for needle in ("claim_space_by_sector", "sc.maintain_claims", "sc.drop_claims", "get_claims(rt, &all_claim_ids)"):
+        if needle not in body:
+            raise KeyError("validate_extension_declarations: expected `%s`" % needle)
+    dup_claims = bool(re.search(r"if\s+!\s*\w+\.insert\(\s*\*?\w*claim\w*\s*\)", body))
+    dup_sectors = bool(re.search(r"\w+\.contains_any\(\s*&\w*sectors\w*\s*\)", body)
+                       or re.search(r"if\s+!\s*\w+\.insert\(\s*\*?\w*sector\w*\s*\)", body))
+    b = lambda x: "true" if x else "false"
+    return ["def minerExtRejectsDuplicateClaims : Bool := %s" % b(dup_claims),
+            "def minerExtRejectsDuplicateSectors : Bool := %s" % b(dup_sectors)]
 
 def datacap_precision():
     """C09: DATACAP_GRANULARITY = frc46_token::TOKEN_PRECISION (external crate, version pinned by the
